@@ -13,6 +13,7 @@ import OFV.Proofs.C07Dual
 import OFV.Proofs.C07BCH
 import OFV.Proofs.C07Ops
 import OFV.Proofs.C07Hop
+import OFV.Proofs.C07DCp
 
 namespace OFV.C07
 open OFV OFV.Spec OFV.Spec.C07 OFV.Model OFV.Model.C07 OFV.Proofs.C07 OFV.Proofs.C07F
@@ -389,5 +390,32 @@ theorem hopping_shortcut_same (tol : Rat) (φ : List (Nat × Nat) → GQ) (i k :
 example : hopOp 0 1 ⟨2, 0⟩ = [([(0, 1), (1, 0)], ⟨2, 0⟩), ([(1, 1), (0, 0)], ⟨2, 0⟩)] ∧
     ([0, 1].filter [2, 1].contains) = [1] := by
   refine ⟨rfl, by decide⟩
+
+/-! ### the diagonal-Coulomb commutator: one-body with one-body -/
+
+/-- `dc_commutator_sound`, PARTIAL.  Full statement (open): for all admissible operators,
+`⟨u| commutator_ordered_diagonal_coulomb_with_two_body_operator(A, B, prior) |s⟩ =
+ ⟨u| prior |s⟩ + Σ_{a ∈ A, b ∈ B} c_a c_b ⟨u| [a, b] |s⟩`.
+Proved here: the helper `_commutator_one_body_with_one_body` adds exactly `coef · [a, b]` to
+`prior_terms` for the index patterns with pairwise distinct modes — chain `i^ j, j^ l ↦ i^ l`, chain
+`i^ j, l^ i ↦ -(l^ j)`, and four distinct modes (nothing added, the terms commute).
+Not proved: coinciding modes (`i^ i`, double pairing `i^ j, j^ i ↦ n_i - n_j`), the one-body /
+two-body and two-body / two-body helpers (`dcOneTwo`, `dcTwoTwo`, `addThreeBody`), and the sum over
+the term pairs; these are covered exhaustively on 4 modes by the correspondence run and the oracle. -/
+theorem dc_one_body_one_body_sound_partial (i j k l : Nat) (coef : GQ) (prior : List (List (Nat × Nat) × GQ)) (s u : Nat) :
+    (i ≠ j → l ≠ j → i ≠ l →
+      den (phiF s u) (dcOneOne [(i, 1), (j, 0)] [(j, 1), (l, 0)] coef prior) =
+        den (phiF s u) prior + pairComm s u [(i, 1), (j, 0)] [(j, 1), (l, 0)] coef) ∧
+    (i ≠ j → l ≠ i → l ≠ j →
+      den (phiF s u) (dcOneOne [(i, 1), (j, 0)] [(l, 1), (i, 0)] coef prior) =
+        den (phiF s u) prior + pairComm s u [(i, 1), (j, 0)] [(l, 1), (i, 0)] coef) ∧
+    (i ≠ k → i ≠ l → j ≠ k → j ≠ l →
+      den (phiF s u) (dcOneOne [(i, 1), (j, 0)] [(k, 1), (l, 0)] coef prior) =
+        den (phiF s u) prior + pairComm s u [(i, 1), (j, 0)] [(k, 1), (l, 0)] coef) :=
+  ⟨fun h1 h2 h3 => dcOneOne_chain i j l coef prior h1 h2 h3 s u,
+   fun h1 h2 h3 => dcOneOne_chain' i j l coef prior h1 h2 h3 s u,
+   fun h1 h2 h3 h4 => dcOneOne_disjoint i j k l coef prior h1 h2 h3 h4 s u⟩
+
+example : dcOneOne [(2, 1), (1, 0)] [(1, 1), (0, 0)] ⟨3, 0⟩ [] = [([(2, 1), (0, 0)], ⟨0 + 3, 0 + 0⟩)] := by decide +kernel
 
 end OFV.C07
